@@ -271,7 +271,14 @@ static void ev_log(Ev* e)
   j_bool("envok", e->envok);
   j_arr_begin("run"); for(int c = 1; c <= NH; ++c) j_arr_int(g_p[c]->isRunning() ? 1 : 0); j_arr_end();
   j_arr_begin("pids"); for(int c = 1; c <= NH; ++c) j_arr_int(g_p[c]->getProcessId()); j_arr_end();
-  j_arr_begin("alive"); for(int c = 1; c <= NH; ++c) j_arr_int(pid_exists(g_lastpid[c]) ? 1 : 0); j_arr_end();
+  j_arr_begin("alive");
+  for(int c = 1; c <= NH; ++c)
+  {
+    int ex = pid_exists(g_lastpid[c]);
+    if(!ex) g_lastpid[c] = 0;       // gone for good: the number may be given to an unrelated process later
+    j_arr_int(ex ? 1 : 0);
+  }
+  j_arr_end();
   j_end();
   free(e->envv); free(e->cenv);
 }
